@@ -104,8 +104,13 @@ def run(ctx: Ctx) -> None:
                 ctx.evaluations += 1
                 a = Node(idx, {"x": 1}, n)
                 b = Node(idx, {}, 2 if n != 2 else 4)
+                try:                           # "a node used as a wire means its output 0" - whatever its known count (0 included)
+                    w0 = a.out_port()
+                    wire_ok = w0 == OutPort(a, 0) and w0.offset == 0
+                except Exception:  # noqa: BLE001  (an exception of the implementation is an observation)
+                    wire_ok = False
                 facts = {
-                    "wire_is_out0": a.out_port() == OutPort(a, 0) and a.out_port().offset == 0,
+                    "wire_is_out0": wire_ok,
                     "outport_eq": OutPort(a, 1) == OutPort(b, 1) and hash(OutPort(a, 1)) == hash(OutPort(b, 1)),
                     "inport_eq": InPort(a, 1) == InPort(b, 1) and hash(InPort(a, 1)) == hash(InPort(b, 1)),
                     "offset_distinguishes": OutPort(a, 1) != OutPort(a, 2),
